@@ -2,8 +2,9 @@ import EV.Model.System
 
 /-!
 Inductive invariant of the status / history-cache / tip coherence model (`EV/Model/System.lean`)
-for the current code (`batch = false`, `checkCount = true`, `recheck = true`; either value of
-`cmpLive`).  Core tactics only.
+for `batch = false`, `checkCount = true`, `recheck = true` and either value of `cmpLive` and
+`raiseOnRace` (the current code and the two pinned variants whose loss is recorded by the ghost sets
+`suppressed` / `lost`).  Core tactics only.
 -/
 namespace EV.System
 
@@ -1635,7 +1636,7 @@ theorem inv_readFinish (f : Flags) (hb : f.batch = false) (hcc : f.checkCount = 
             · exact ⟨t', List.mem_append_left _ hin, rfl, rfl⟩
 
 /-- every event preserves the invariant (any flags with `batch = false`, `checkCount = true`,
-    `recheck = true`; both the pinned and the proposed second-loop comparison) -/
+    `recheck = true`; both second-loop comparisons, raising or retrying refresh) -/
 theorem inv_step_flags (f : Flags) (hb : f.batch = false) (hcc : f.checkCount = true) (hr : f.recheck = true)
     (st : St) (ev : Ev) (h : Inv st) : Inv (step f st ev) := by
   cases ev with
@@ -1680,34 +1681,35 @@ theorem inv_run (st : St) (evs : List Ev) (h : Inv st) : Inv (run {} st evs) :=
                       mempool has been refreshed at that height, Notifications holds nothing back);
   * `flipped = []`    every parent flip has been followed by a `_notify_sessions` call with
                       `height_changed = true` (the chain change that caused it has been notified);
-  * `lost = []`, `suppressed = []`   no notification was lost by `_refresh_hsub_results` raising /
-                      by the stale-copy comparison (empty for ever under the proposed fix: `C07_fixed`);
   * `hreads = []`, `tasks = []`     no `_notify_sessions` call is suspended in the header read, no
                       history read and no `_notify_inner` is in flight ("notifications delivered");
   * `tipDone = true`  since the last change of the DB's chain a `_notify_sessions` call with
                       `height_changed = true` and a height ≥ the DB's was started, at a moment when
                       no header read aiming elsewhere was in flight (C20_complete: the call for the
                       height both sources last reported; `height_changed` by `notified_height` /
-                      the reorg counter, F4). -/
+                      the reorg counter, F4).
+The ghost sets `lost` (a notification lost because `_refresh_hsub_results` raised) and `suppressed`
+(a needed send hidden by the stale-copy comparison) are empty in every reachable state of the
+current code (`C07_fixed`); they are hypotheses of `quiescent_current` only so that it also covers
+the pinned variants. -/
 structure Quiet (st : St) : Prop where
   carrier : st.carrier = []
   flipped : st.flipped = []
-  lost : st.lost = []
-  suppressed : st.suppressed = []
   hreads : st.hreads = []
   tasks : st.tasks = []
   tipDone : st.tipDone = true
 
 /-- at rest every connected subscriber holds the current status and every cached history is current -/
-theorem quiescent_current (st : St) (h : Inv st) (hq : Quiet st) :
+theorem quiescent_current (st : St) (h : Inv st) (hq : Quiet st) (hlost : st.lost = [])
+    (hsupp : st.suppressed = []) :
     (∀ s hx, aliveOf st s = true → hx ∈ subsOf st s → heldOf st s hx = some (curOf st hx)) ∧
     (∀ hx v, lookup hx st.cache = some v → v = confOf st hx) := by
   have hO : ∀ hx, ¬ Owed st hx := by
     intro hx ho
     rcases ho with ho | ho | ho | ⟨r, hr, _⟩
     · rw [hq.carrier] at ho; simp at ho
-    · rw [hq.lost] at ho; simp at ho
-    · rw [hq.suppressed] at ho; simp at ho
+    · rw [hlost] at ho; simp at ho
+    · rw [hsupp] at ho; simp at ho
     · rw [hq.hreads] at hr; simp at hr
   have hOF : ∀ hx, ¬ OwedF st hx := by
     intro hx ho
